@@ -197,4 +197,52 @@ def matmul (A B : List (List α)) : List (List α) :=
   A.map (fun r => (transpose B).map (fun c => Jnp.dot r c))
 end
 
+
+/-! ### `VmapMixture` -/
+
+/-- the vmapped component distribution handed to `VmapMixture`: its declared shapes and, per component, the record of its
+(unwrapped) private methods — `eqx.filter_vmap(lambda d: d._log_prob(x, condition))(dist)` evaluates each of them -/
+structure VDist (X K α : Type) where
+  shape : Shape
+  cond_shape : Option Shape
+  comps : List (Distn X Unit K α)
+
+/-- attributes of `VmapMixture`; `log_normalized_weights` is the GENERATED `Lambda` wrapper of `Gen/Wrappers.lean` -/
+structure MixtureObj (X K α : Type) where
+  shape : Shape
+  cond_shape : Option Shape
+  log_normalized_weights : Gen.Wr.Lambda (List α) Unit (List α)
+  dist : VDist X K α
+
+/-- `unwrap(VmapMixture)`: the `Lambda` leaf evaluated (the GENERATED `Lambda.unwrap`) -/
+structure MixtureU (X K α : Type) where
+  shape : Shape
+  cond_shape : Option Shape
+  log_normalized_weights : List α
+  dist : VDist X K α
+
+def MixtureObj.unwrap {X K α : Type} (m : MixtureObj X K α) : MixtureU X K α :=
+  ⟨m.shape, m.cond_shape, Gen.Wr.Lambda.unwrap m.log_normalized_weights, m.dist⟩
+
+/-- a mixture's key in the model: what `jr.categorical(key1, ·)` draws for `key1`, and `key2` (`key1, key2 = jr.split(key)`) -/
+structure CatKey where
+  draw : Nat
+
+/-- `jr.split(key)` of a mixture key -/
+def mixSplit {K : Type} (key : Nat × K) : CatKey × K := (⟨key.1⟩, key.2)
+
+/-- `jr.categorical(key1, logits)`: the draw (its law — probabilities `softmax(logits)` — is the trusted primitive) -/
+def categorical {α : Type} (key1 : CatKey) (_logits : List α) : Nat := key1.draw
+
+/-- `tree_map(lambda leaf: leaf[component] if isinstance(leaf, Array) else leaf, tree=dist)`: the component's record; a traced index is
+clamped into range by JAX, indexing an empty leading axis raises (the hand model `Families.mixtureTake`) -/
+def takeComponent {X K α : Type} (d : VDist X K α) (component : Nat) : Option (Distn X Unit K α) :=
+  Families.mixtureTake d.comps component
+
+/-- `component_dist._sample(key2, condition)` -/
+def sampleOf {X K α : Type} (d : Distn X Unit K α) (key : K) (_condition : Option Unit) : X := d.sample key ()
+
+/-- `eqx.filter_vmap(lambda d: d._log_prob(x, condition))(dist)` -/
+def vmapLogProb {X K α : Type} (d : VDist X K α) (x : X) (_condition : Option Unit) : List α := d.comps.map (fun c => c.logProb x ())
+
 end Fw
